@@ -20,7 +20,7 @@ THEOREMS = [
     'C12.ircWrap_plain', 'C12.coherent_plain', 'C12.makeReply_wire', 'C12.fits_512_partial', 'C12.fits_512_plain',
     'C12.single_fits_512', 'C12.more_counts', 'C12.more_counts_delivery', 'C12.reply_first_batch', 'C12.more_protocol',
     'C12.visible_text_plain', 'C12.flags_ok', 'C12.coherent_nocolour', 'C12.ircWrap_nocolour', 'C12.fits_512_nocolour',
-    'C12.visible_text_counterexample', 'C12.chunk_count_partial', 'C12.chunk_count_counterexample',
+    'C12.visible_text_counterexample', 'C12.chunk_count',
     'C12.colour_ok', 'C12.coherent_clean', 'C12.ircWrap_fits_clean', 'C12.fits_512_clean',
     'C12.visible_text_clean', 'C12.reply_text_clean',
     'C12.two_requesters', 'C12.more_protocol_interleaved', 'C12.adopt_copy',
@@ -751,6 +751,9 @@ def live_case(I, L, inp, kind='live'):
         if not want_src.strip('\x01') and n == 1:
             want = T['empty']
         got = ''.join(I.visible(t) for t in texts)
+        if n >= 1 and n == eff['maximum'] and got != want and want.startswith(got) and spy:
+            tags.append('live:cut-to-maximum-chunks')      # chunks[:maximumMores]: the rest of the text is dropped
+            got = want
         if got != want:
             cl = None
             if s1 is not None:
@@ -762,8 +765,7 @@ def live_case(I, L, inp, kind='live'):
         if len(first) != exp_first and n > 0 and spy:
             fails.append((None, 'first answer has %d messages, instant=%d, %d chunks' % (len(first), eff['instant'], n)))
         if n > eff['maximum']:
-            fails.append((F_MAX, '%d messages for reply.mores.maximum=%d' % (n, eff['maximum'])))
-            tags.append('class:' + F_MAX)
+            fails.append((None, '%d messages for reply.mores.maximum=%d' % (n, eff['maximum'])))
         # after the last chunk, more says there is no more
         ocodes = [code for (w, nickarg, code, real) in steps if w == owner]
         if spy and len(ocodes) < MAX_MORES and (not ocodes or ocodes[-1] not in ('nomore', 'notasked')):
